@@ -75,6 +75,14 @@ const MATE_IN_ONE: &[&str] = &[
     // a check whose only answer is an en-passant capture of the checking pawn: NOT a mate in one
     "8/8/6pp/7k/5P1p/5K2/6P1/8 w - - 0 1",
     "8/6p1/5k2/5p1P/7K/6PP/8/8 b - - 0 1",
+    // bare kings / lone minor piece at the root (dead draws by material, but legal moves exist)
+    "8/8/4k3/8/8/3K4/8/8 w - - 0 1",
+    "8/8/4k3/8/8/3KN3/8/8 w - - 0 1",
+    "8/8/4kb2/8/8/3K4/8/8 b - - 0 1",
+    // an en-passant capture is available and the same pawn has an ordinary move too (two iterator entries for one source)
+    "r3k2r/p6p/5q2/3pP3/8/8/P6P/R3K2R w - d6 0 1",
+    "r3k2r/p6p/8/8/3Pp3/5Q2/P6P/R3K2R b - d3 0 1",
+    "4k3/8/8/3pP3/8/8/8/4K3 w - d6 0 1",
     // stalemate tricks and under-promotion mates
     "5k2/5P2/5K2/8/8/8/8/8 w - - 0 1",
     "7k/5P2/6K1/8/8/8/8/8 w - - 0 1",
